@@ -110,6 +110,14 @@ CHECKS = {
             "pushes of 0-3 symbols, 0-2 final states, reserved fresh names) plus random PDAs and the C08 grammar family; "
             "every conversion is compared on all words up to L=3|4 with exact PDA acceptance.",
             "Trusted: TLC, projection (start stack symbol through to_networkx). Words up to L.", "DESIGN.md section 3 C13"),
+    "C11": ("TLA+ generators (CFGGen, PDAGen, FAGen, RegexGen) enumerated by TLC and paired; cfg.intersection / "
+            "pda.intersection replayed with Regex, DFA, NFA and epsilon-NFA operands and judged by TracePDA: bounded "
+            "grammar language, exact PDA acceptance by final state (PDASem) and exact automaton acceptance (FASem)",
+            "Spec-generated grammars and PDAs paired with a rotating selection of spec-generated regular operands of all "
+            "four kinds (deterministic-by-accident NFAs included, partly overlapping alphabets, empty languages, epsilon "
+            "on either side); results compared on all words up to length 3; other operand types must raise "
+            "NotImplementedError.",
+            "Trusted: TLC, projections. Pairs are a sample of the product; words up to length 3.", "DESIGN.md section 3 C11"),
 }
 
 NOT_YET = "check not built yet in this round (see DESIGN.md section 9, build order); no claim is made"
